@@ -171,12 +171,16 @@ def run(ctx) -> None:
 
     # ---- R5 ---------------------------------------------------------------------
     wo = db.func("runners._shared.helpers.wrap_outputs")
-    t = src(wo.node)
-    zips = [c for c in db.calls_in(wo) if dotted(c.func) == "zip"]
-    ok = bool(zips) and all(len(c.args) == 2 and src(c.args[0]) == "data_outputs" and src(c.args[1]) == "result" for c in zips)
-    chk = any(isinstance(n, ast.If) and "len(data_outputs) != len(result)" in src(n.test) and any(isinstance(x, ast.Raise) for x in ast.walk(n)) for n in walk_local(wo.node))
-    rep.add("C01.R5", f"{wo.qname}:positional-unpack", ok and chk, wo.loc(), "multi-output: length check, then zip(data_outputs, result)" if ok and chk else "tuple returns are not unpacked positionally onto the data output names after a length check")
-    single = any(isinstance(n, ast.Assign) and isinstance(n.value, ast.Dict) and len(n.value.keys) == 1 and src(n.value.keys[0]) == "data_outputs[0]" and src(n.value.values[0]) == "result" for n in walk_local(wo.node))
+    from sa.pattern import solve
+
+    okz = bool(solve(["_D = node.data_outputs", "dict(zip(_D, result, strict=True))"], wo.node)) or bool(solve(["_D = node.data_outputs", "dict(zip(_D, result))"], wo.node))
+    chk = False
+    for env in solve(["_D = node.data_outputs", "len(_D) != len(result)"], wo.node):
+        for n in walk_local(wo.node):
+            if isinstance(n, ast.If) and any(isinstance(x, ast.Raise) for x in ast.walk(n)) and "len(" in src(n.test) and "!=" in src(n.test):
+                chk = True
+    rep.add("C01.R5", f"{wo.qname}:positional-unpack", okz and chk, wo.loc(), "multi-output: length check, then zip(data_outputs, result)" if okz and chk else "tuple returns are not unpacked positionally onto the data output names after a length check")
+    single = bool(solve(["_D = node.data_outputs", "{_D[0]: result}"], wo.node))
     rep.add("C01.R5", f"{wo.qname}:single-output", single, wo.loc(), "single output: the returned object is stored as it is" if single else "a single data output is no longer stored as the returned object")
 
 
